@@ -1,3 +1,940 @@
-(* UnixProofs: placeholder, to be filled in *)
-From Coq Require Import List Arith Lia Bool ZArith.
-From IPC Require Import K.
+(* UnixProofs: property C11 for the unix back end model - no descriptor is leaked, closed twice, or closed
+   without being owned.  The invariant u_inv is preserved by every step of every program. *)
+From Coq Require Import List Arith Lia Bool ZArith Permutation.
+From IPC Require Import K KProofs Prog Ideal Unix.
+Import ListNotations.
+
+(* ------------------------------------------------------------------------------------------ *)
+(* association lists: lookup / update                                                           *)
+(* ------------------------------------------------------------------------------------------ *)
+Lemma lookup_app {B} : forall (l1 l2 : list (nat * B)) a,
+  lookup (l1 ++ l2) a = match lookup l1 a with Some v => Some v | None => lookup l2 a end.
+Proof.
+  induction l1 as [|[x v] t IH]; intros l2 a; cbn [lookup app]; auto.
+  destruct (Nat.eqb x a); auto.
+Qed.
+
+Lemma lookup_In {B} : forall (l : list (nat * B)) a v, lookup l a = Some v -> In (a, v) l.
+Proof.
+  induction l as [|[x w] t IH]; intros a v H; cbn [lookup] in H; [discriminate|].
+  destruct (Nat.eqb_spec x a) as [->|Hne].
+  - injection H as ->. now left.
+  - right. auto.
+Qed.
+
+Lemma lookup_in_fst {B} : forall (l : list (nat * B)) a v, lookup l a = Some v -> In a (map fst l).
+Proof. intros l a v H. apply lookup_In in H. apply (in_map fst) in H. exact H. Qed.
+
+Lemma in_fst_lookup {B} : forall (l : list (nat * B)) a, In a (map fst l) -> exists v, lookup l a = Some v.
+Proof.
+  induction l as [|[x w] t IH]; intros a H; cbn [map fst In] in H; [destruct H|].
+  cbn [lookup]. destruct (Nat.eqb_spec x a) as [->|Hne]; eauto.
+  destruct H as [H|H]; [contradiction|]. auto.
+Qed.
+
+Lemma In_lookup {B} : forall (l : list (nat * B)) a v, NoDup (map fst l) -> In (a, v) l -> lookup l a = Some v.
+Proof.
+  induction l as [|[x w] t IH]; intros a v Hnd Hin; cbn [lookup]; [destruct Hin|].
+  cbn [map fst] in Hnd. inversion Hnd as [|? ? Hni Hnd']; subst.
+  destruct Hin as [E|Hin].
+  - injection E as -> ->. now rewrite Nat.eqb_refl.
+  - destruct (Nat.eqb_spec x a) as [->|Hne]; auto.
+    exfalso. apply Hni. apply (in_map fst) in Hin. exact Hin.
+Qed.
+
+Lemma fresh_notin {B} : forall (l : list (nat * B)) n a,
+  Forall (fun e => fst e < n) l -> n <= a -> ~ In a (map fst l).
+Proof.
+  intros l n a HF Hle Hin. apply in_map_iff in Hin. destruct Hin as (e & <- & Hin).
+  rewrite Forall_forall in HF. specialize (HF e Hin). lia.
+Qed.
+
+Lemma lookup_fresh {B} : forall (l : list (nat * B)) n a,
+  Forall (fun e => fst e < n) l -> n <= a -> lookup l a = None.
+Proof.
+  intros l n a HF Hle. destruct (lookup l a) as [v|] eqn:E; auto.
+  exfalso. eapply fresh_notin; eauto. eapply lookup_in_fst; eauto.
+Qed.
+
+Lemma lookup_lt {B} : forall (l : list (nat * B)) n a v,
+  Forall (fun e => fst e < n) l -> lookup l a = Some v -> a < n.
+Proof.
+  intros l n a v HF H. destruct (Nat.lt_ge_cases a n) as [|Hge]; auto.
+  rewrite (lookup_fresh l n a HF Hge) in H. discriminate.
+Qed.
+
+Lemma lookup_update_eq {B} : forall (l : list (nat * B)) a v,
+  lookup (update l a v) a = match lookup l a with Some _ => Some v | None => None end.
+Proof.
+  induction l as [|[x w] t IH]; intros a v; cbn [lookup update]; auto.
+  destruct (Nat.eqb x a) eqn:E; cbn [lookup]; rewrite E; auto.
+Qed.
+
+Lemma lookup_update_neq {B} : forall (l : list (nat * B)) a b v,
+  a <> b -> lookup (update l a v) b = lookup l b.
+Proof.
+  induction l as [|[x w] t IH]; intros a b v Hne; cbn [lookup update]; auto.
+  destruct (Nat.eqb_spec x a) as [->|Hxa]; cbn [lookup].
+  - destruct (Nat.eqb_spec a b); [contradiction|]. reflexivity.
+  - destruct (Nat.eqb x b); auto.
+Qed.
+
+Lemma map_fst_update {B} : forall (l : list (nat * B)) a v, map fst (update l a v) = map fst l.
+Proof.
+  induction l as [|[x w] t IH]; intros a v; cbn [update map fst]; auto.
+  destruct (Nat.eqb x a); cbn [map fst]; f_equal; auto.
+Qed.
+
+Lemma Forall_update {B} : forall (l : list (nat * B)) a v n,
+  Forall (fun e => fst e < n) l -> Forall (fun e => fst e < n) (update l a v).
+Proof.
+  induction l as [|[x w] t IH]; intros a v n H; cbn [update]; auto.
+  inversion H as [|? ? Hx Ht]; subst. destruct (Nat.eqb x a); constructor; auto.
+Qed.
+
+Lemma Forall_lt_weaken {B} : forall (l : list (nat * B)) n m,
+  n <= m -> Forall (fun e => fst e < n) l -> Forall (fun e => fst e < m) l.
+Proof. intros l n m Hle H. eapply Forall_impl; [|exact H]. cbn beta. intros e He. lia. Qed.
+
+Lemma Forall_lt_snoc {B} : forall (l : list (nat * B)) n v,
+  Forall (fun e => fst e < n) l -> Forall (fun e => fst e < S n) (l ++ [(n, v)]).
+Proof.
+  intros l n v H. apply Forall_app. split.
+  - eapply Forall_lt_weaken; [|exact H]. lia.
+  - constructor; [cbn [fst]; lia|constructor].
+Qed.
+
+Lemma NoDup_snoc {X} : forall (l : list X) x, NoDup l -> ~ In x l -> NoDup (l ++ [x]).
+Proof.
+  induction l as [|h t IH]; intros x Hnd Hni; cbn [app].
+  - constructor; [intros []|constructor].
+  - inversion Hnd as [|? ? Hh Ht]; subst. constructor.
+    + intros Hin. apply in_app_or in Hin. destruct Hin as [Hin|[->|[]]]; [contradiction|].
+      apply Hni. now left.
+    + apply IH; auto. intros Hin. apply Hni. now right.
+Qed.
+
+Lemma NoDup_fst_snoc {B} : forall (l : list (nat * B)) n v,
+  NoDup (map fst l) -> Forall (fun e => fst e < n) l -> NoDup (map fst (l ++ [(n, v)])).
+Proof.
+  intros l n v Hnd HF. rewrite map_app. cbn [map fst]. apply NoDup_snoc; auto.
+  eapply fresh_notin; eauto.
+Qed.
+
+Lemma nodup_app_inv {X} : forall (l1 l2 : list X), NoDup (l1 ++ l2) ->
+  NoDup l2 /\ forall x, In x l1 -> In x l2 -> False.
+Proof.
+  induction l1 as [|h t IH]; intros l2 H; cbn [app] in H.
+  - split; [auto|intros x []].
+  - inversion H as [|? ? Hh Ht]; subst. destruct (IH _ Ht) as [Hn Hd]. split; auto.
+    intros x [->|Hin] Hin2; eauto. apply Hh. apply in_or_app. now right.
+Qed.
+
+(* ------------------------------------------------------------------------------------------ *)
+(* remove_fd                                                                                    *)
+(* ------------------------------------------------------------------------------------------ *)
+Lemma lookup_remove_fd_other : forall t f g, f <> g -> lookup (remove_fd f t) g = lookup t g.
+Proof.
+  induction t as [|[x r] t IH]; intros f g Hne; cbn [remove_fd lookup]; auto.
+  destruct (Nat.eqb_spec x f) as [->|Hxf].
+  - destruct (Nat.eqb_spec f g); [contradiction|]. reflexivity.
+  - cbn [lookup]. destruct (Nat.eqb x g); auto.
+Qed.
+
+Lemma remove_fd_incl : forall t f e, In e (remove_fd f t) -> In e t.
+Proof.
+  induction t as [|[x r] t IH]; intros f e H; cbn [remove_fd] in H; auto.
+  destruct (Nat.eqb x f).
+  - now right.
+  - destruct H as [H|H]; [now left|right; eauto].
+Qed.
+
+Lemma remove_fd_fst_incl : forall t f x, In x (map fst (remove_fd f t)) -> In x (map fst t).
+Proof.
+  intros t f x H. apply in_map_iff in H. destruct H as (e & <- & Hin).
+  apply in_map. eapply remove_fd_incl; eauto.
+Qed.
+
+Lemma remove_fd_perm : forall t f, In f (map fst t) ->
+  Permutation (map fst t) (f :: map fst (remove_fd f t)).
+Proof.
+  induction t as [|[x r] t IH]; intros f H; cbn [map fst In] in H; [destruct H|].
+  cbn [remove_fd map fst]. destruct (Nat.eqb_spec x f) as [->|Hne]; auto.
+  destruct H as [H|H]; [contradiction|].
+  cbn [map fst]. etransitivity; [apply perm_skip, IH, H|]. apply perm_swap.
+Qed.
+
+Lemma remove_fd_nodup : forall t f, NoDup (map fst t) -> NoDup (map fst (remove_fd f t)).
+Proof.
+  induction t as [|[x r] t IH]; intros f H; cbn [remove_fd map fst] in *; auto.
+  inversion H as [|? ? Hx Ht]; subst. destruct (Nat.eqb x f); auto.
+  cbn [map fst]. constructor; auto. intros Hin. apply Hx. eapply remove_fd_fst_incl; eauto.
+Qed.
+
+Lemma remove_fd_notin : forall t f, NoDup (map fst t) -> ~ In f (map fst (remove_fd f t)).
+Proof.
+  induction t as [|[x r] t IH]; intros f H; cbn [remove_fd map fst] in *; auto.
+  inversion H as [|? ? Hx Ht]; subst. destruct (Nat.eqb_spec x f) as [->|Hne]; auto.
+  cbn [map fst]. intros [E|Hin]; [contradiction|]. eapply IH; eauto.
+Qed.
+
+Lemma count_occ_remove_fd_le : forall t f r,
+  count_occ ref_dec (map snd (remove_fd f t)) r <= count_occ ref_dec (map snd t) r.
+Proof.
+  induction t as [|[x y] t IH]; intros f r; cbn [remove_fd map snd count_occ]; auto.
+  destruct (Nat.eqb x f).
+  - destruct (ref_dec y r); lia.
+  - cbn [map snd count_occ]. specialize (IH f r). destruct (ref_dec y r); lia.
+Qed.
+
+(* ------------------------------------------------------------------------------------------ *)
+(* flat_map over the values of an association list                                              *)
+(* ------------------------------------------------------------------------------------------ *)
+Definition fm {B} (g : B -> list nat) (l : list (nat * B)) : list nat := flat_map (fun e => g (snd e)) l.
+
+Lemma fm_app {B} (g : B -> list nat) : forall l1 l2, fm g (l1 ++ l2) = fm g l1 ++ fm g l2.
+Proof. intros. unfold fm. apply flat_map_app. Qed.
+
+Lemma fm_update_perm {B} (g : B -> list nat) : forall l a v v', lookup l a = Some v ->
+  Permutation (g v ++ fm g (update l a v')) (g v' ++ fm g l).
+Proof.
+  induction l as [|[x w] t IH]; intros a v v' H; cbn [lookup] in H; [discriminate|].
+  cbn [update]. destruct (Nat.eqb x a).
+  - injection H as ->. unfold fm. cbn [flat_map snd]. apply Permutation_app_swap_app.
+  - unfold fm in *. cbn [flat_map snd].
+    etransitivity; [apply Permutation_app_swap_app|].
+    etransitivity; [|apply Permutation_app_swap_app].
+    apply Permutation_app_head. apply IH; auto.
+Qed.
+
+Lemma fm_in {B} (g : B -> list nat) : forall l a v x, lookup l a = Some v -> In x (g v) -> In x (fm g l).
+Proof.
+  induction l as [|[y w] t IH]; intros a v x H Hin; cbn [lookup] in H; [discriminate|].
+  unfold fm in *. cbn [flat_map snd]. apply in_or_app. destruct (Nat.eqb y a).
+  - injection H as ->. now left.
+  - right. eauto.
+Qed.
+
+Lemma fm_distinct {B} (g : B -> list nat) : forall l a1 a2 v1 v2 x, NoDup (fm g l) ->
+  lookup l a1 = Some v1 -> lookup l a2 = Some v2 -> a1 <> a2 -> In x (g v1) -> In x (g v2) -> False.
+Proof.
+  induction l as [|[y w] t IH]; intros a1 a2 v1 v2 x Hnd H1 H2 Hne I1 I2; cbn [lookup] in H1, H2; [discriminate|].
+  unfold fm in Hnd. cbn [flat_map snd] in Hnd. destruct (nodup_app_inv _ _ Hnd) as [Hnt Hdis].
+  destruct (Nat.eqb_spec y a1) as [->|N1]; destruct (Nat.eqb_spec a1 a2) as [E|N2]; try contradiction.
+  - injection H1 as ->. destruct (Nat.eqb_spec a1 a2); [contradiction|].
+    eapply (Hdis x); eauto. eapply fm_in; eauto.
+  - destruct (Nat.eqb_spec y a2) as [->|N3].
+    + injection H2 as ->. eapply (Hdis x); eauto. eapply fm_in; eauto.
+    + eapply (IH a1 a2); eauto.
+Qed.
+
+Definition arco (v : fd * nat) : list fd := match v with (f, S _) => [f] | _ => [] end.
+Definition rxo (o : uobj) : list fd := match o with UR (Some f) => [f] | _ => [] end.
+Definition arc_fds := fm arco.
+Definition rx_fds := fm rxo.
+
+Lemma owned_fds_eq : forall u, owned_fds u = arc_fds (arcs u) ++ rx_fds (uh u).
+Proof. reflexivity. Qed.
+
+(* ------------------------------------------------------------------------------------------ *)
+(* counting the sender handles of an arc                                                        *)
+(* ------------------------------------------------------------------------------------------ *)
+Definition is_us (a : aid) (e : hid * uobj) : bool := match snd e with US b => Nat.eqb b a | _ => false end.
+Definition count_us (a : aid) (l : list (hid * uobj)) : nat := length (filter (is_us a) l).
+Definition usb (a : aid) (o : uobj) : nat := match o with US b => if Nat.eqb b a then 1 else 0 | _ => 0 end.
+Definition uso (o : uobj) : list aid := match o with US a => [a] | _ => [] end.
+
+Lemma count_us_cons : forall a x o t, count_us a ((x, o) :: t) = usb a o + count_us a t.
+Proof.
+  intros a x o t. unfold count_us. cbn [filter]. unfold is_us at 1. cbn [snd].
+  destruct o as [b| |]; cbn [usb]; auto. destruct (Nat.eqb b a); auto.
+Qed.
+
+Lemma count_us_app : forall a l1 l2, count_us a (l1 ++ l2) = count_us a l1 + count_us a l2.
+Proof. intros. unfold count_us. now rewrite filter_app, app_length. Qed.
+
+Lemma count_us_update : forall a l h o o', lookup l h = Some o ->
+  count_us a (update l h o') + usb a o = count_us a l + usb a o'.
+Proof.
+  induction l as [|[x w] t IH]; intros h o o' H; cbn [lookup] in H; [discriminate|].
+  cbn [update]. destruct (Nat.eqb x h).
+  - injection H as ->. rewrite !count_us_cons. lia.
+  - rewrite !count_us_cons. specialize (IH _ _ o' H). lia.
+Qed.
+
+Lemma count_us_zero : forall a l, (forall h, ~ In (h, US a) l) -> count_us a l = 0.
+Proof.
+  induction l as [|[x w] t IH]; intros H; auto.
+  rewrite count_us_cons. rewrite IH by (intros h Hin; apply (H h); now right).
+  destruct w as [b| |]; cbn [usb]; auto. destruct (Nat.eqb_spec b a) as [->|]; auto.
+  exfalso. apply (H x). now left.
+Qed.
+
+Lemma count_uso : forall a o, count_occ Nat.eq_dec (uso o) a = usb a o.
+Proof.
+  intros a [b| |]; cbn [uso usb count_occ]; auto.
+  destruct (Nat.eq_dec b a) as [->|Hne].
+  - now rewrite Nat.eqb_refl.
+  - destruct (Nat.eqb_spec b a); [contradiction|]. reflexivity.
+Qed.
+
+(* ------------------------------------------------------------------------------------------ *)
+(* kernel well-formedness along the unix steps (independent of the descriptor bookkeeping)     *)
+(* ------------------------------------------------------------------------------------------ *)
+Ltac nlia := unfold aid, hid, fd in *; lia.
+Ltac simp_u := cbn [with_k log set_uh set_arcs uchans fdt nextfd arcs anext uh unext utrace] in *.
+
+Lemma k_wf_held_le : forall cs h1 h2,
+  (forall c, count_occ ref_dec h2 (RR c) <= count_occ ref_dec h1 (RR c)) ->
+  k_wf {| chans := cs; held := h1 |} -> k_wf {| chans := cs; held := h2 |}.
+Proof.
+  intros cs h1 h2 Hle W c ch Hn Hd. destruct (W c ch Hn Hd) as [Hq H0]. split; auto.
+  unfold refs, inflight in *. cbn [held chans] in *. specialize (Hle c). lia.
+Qed.
+
+Lemma k_send_wf_held : forall k c m k', k_wf k -> k_send k c m = Some k' ->
+  (forall c', In (RR c') (m_rights m) -> In (RR c') (held k)) -> k_wf k'.
+Proof.
+  intros k c m k' W Hs Hm. apply k_send_some in Hs. destruct Hs as (ch & Hn & Hd & ->).
+  intros c' ch' Hn' Hd'. cbn [chans] in Hn'.
+  destruct (Nat.eq_dec c c') as [<-|Hne].
+  - rewrite nth_error_set_nth_eq in Hn' by (eapply nth_error_lt; eauto).
+    injection Hn' as <-. discriminate.
+  - rewrite nth_error_set_nth_neq in Hn' by auto.
+    destruct (W c' ch' Hn' Hd') as [Hq H0]. split; auto.
+    pose proof (refs_set_nth k c ch {| q := q ch ++ [m]; dead := false |} (held k) (RR c') Hn) as He.
+    unfold live_rights in He. cbn [dead q] in He. rewrite Hd in He.
+    rewrite flat_map_rights_app, count_occ_app in He. cbn [flat_map] in He. rewrite app_nil_r in He.
+    assert (Hz : count_occ ref_dec (m_rights m) (RR c') = 0).
+    { apply count_occ_not_In. intros Hin. apply Hm in Hin.
+      apply (count_occ_In ref_dec) in Hin. unfold refs in H0. lia. }
+    unfold refs in H0. lia.
+Qed.
+
+Lemma kwf_close : forall u f, k_wf (uk u) -> k_wf (uk (sys_close u f)).
+Proof.
+  intros u f W. unfold sys_close. destruct (lookup (fdt u) f) as [r|]; [|exact W].
+  set (K0 := {| chans := uchans u; held := map snd (remove_fd f (fdt u)) |}).
+  assert (W0 : k_wf K0).
+  { unfold K0. eapply k_wf_held_le; [|exact W]. intros c. apply count_occ_remove_fd_le. }
+  apply gc_wf in W0. pose proof (gc_held K0) as Hh.
+  unfold uk. simp_u. destruct (gc K0) as [cs hs]. cbn [chans held] in *. subst hs. exact W0.
+Qed.
+
+Lemma uk_arc_inc : forall u a, uk (arc_inc u a) = uk u.
+Proof. intros u a. unfold arc_inc. destruct (lookup (arcs u) a) as [[f n]|]; reflexivity. Qed.
+
+Lemma kwf_arc_dec : forall u a, k_wf (uk u) -> k_wf (uk (arc_dec u a)).
+Proof.
+  intros u a W. unfold arc_dec. destruct (lookup (arcs u) a) as [[f [|[|n]]]|]; try exact W.
+  apply kwf_close. exact W.
+Qed.
+
+Lemma kwf_drop_owned : forall os u, k_wf (uk u) -> k_wf (uk (drop_owned u os)).
+Proof.
+  induction os as [|[a|f] t IH]; intros u W; cbn [drop_owned]; auto.
+  - apply IH, kwf_arc_dec, W.
+  - apply IH, kwf_close, W.
+Qed.
+
+(* u_resolve only touches the strong counts and the handles *)
+Lemma u_resolve_frame : forall atts u fs os u', u_resolve u atts = Some (fs, os, u') ->
+  uchans u' = uchans u /\ fdt u' = fdt u /\ nextfd u' = nextfd u /\ utrace u' = utrace u.
+Proof.
+  induction atts as [|[x|x] r IH]; intros u fs os u' H; cbn [u_resolve] in H.
+  - injection H as <- <- <-. auto.
+  - destruct (lookup (uh u) x) as [[a| |]|]; try discriminate.
+    destruct (lookup (arcs u) a) as [[f [|n]]|] eqn:E2; try discriminate.
+    destruct (u_resolve (arc_inc u a) r) as [[[fs' os'] u'']|] eqn:E3; try discriminate.
+    injection H as <- <- <-. apply IH in E3. unfold arc_inc in E3. rewrite E2 in E3. exact E3.
+  - destruct (lookup (uh u) x) as [[a|[f|]|]|]; try discriminate.
+    destruct (u_resolve (set_uh u (update (uh u) x (UR None))) r) as [[[fs' os'] u'']|] eqn:E3; try discriminate.
+    injection H as <- <- <-. apply IH in E3. exact E3.
+Qed.
+
+Lemma refs_of_in : forall t fs r, In r (refs_of t fs) -> In r (map snd t).
+Proof.
+  induction fs as [|f fs IH]; intros r H; cbn [refs_of] in H; [destruct H|].
+  destruct (lookup t f) as [x|] eqn:E; auto.
+  destruct H as [<-|H]; auto. apply lookup_In in E. apply (in_map snd) in E. exact E.
+Qed.
+
+Lemma kwf_install : forall rs u,
+  k_wf {| chans := uchans u; held := map snd (fdt u) ++ rs |} -> k_wf (uk (fst (u_install u rs))).
+Proof.
+  induction rs as [|[c|c|o] t IH]; intros u W; cbn [u_install].
+  - cbn [fst]. unfold uk. now rewrite app_nil_r in W.
+  - match goal with |- context [u_install ?x t] => specialize (IH x); destruct (u_install x t) as [u2 out] end.
+    cbn [fst] in *. apply IH. cbn [uchans fdt]. rewrite map_app, <- app_assoc. exact W.
+  - match goal with |- context [u_install ?x t] => specialize (IH x); destruct (u_install x t) as [u2 out] end.
+    cbn [fst] in *. apply IH. cbn [uchans fdt]. rewrite map_app, <- app_assoc. exact W.
+  - apply IH. eapply k_wf_held_le; [|exact W]. intros c. rewrite !count_occ_app.
+    cbn [count_occ]. destruct (ref_dec (RM o) (RR c)); [discriminate|]. lia.
+Qed.
+
+Lemma kwf_step : forall u o, k_wf (uk u) -> k_wf (uk (fst (u_step u o))).
+Proof.
+  intros u o W. destruct o as [|h|h|h data atts|h]; cbn [u_step].
+  - (* ONew *)
+    unfold k_new. cbn [fst uk uchans fdt chans held].
+    pose proof (k_new_wf _ W) as W1. unfold k_new in W1. cbn [fst uk chans held] in W1.
+    eapply k_wf_held_le; [|exact W1]. intros c. cbn [fdt]. rewrite map_app, count_occ_app.
+    cbn [map snd count_occ].
+    destruct (ref_dec (RS (length (uchans u))) (RR c)); [discriminate|].
+    destruct (ref_dec (RR (length (uchans u))) (RR c)); lia.
+  - (* OClone *)
+    destruct (lookup (uh u) h) as [[a| |]|]; try exact W.
+    destruct (lookup (arcs u) a) as [[f [|n]]|]; try exact W.
+    cbn [fst]. pose proof (uk_arc_inc u a) as E. unfold uk in *. cbn [uchans fdt]. rewrite E. exact W.
+  - (* ODrop *)
+    destruct (lookup (uh u) h) as [[a|[f|]|]|]; try exact W; cbn [fst].
+    + apply kwf_arc_dec. exact W.
+    + apply kwf_close. exact W.
+  - (* OSend *)
+    destruct (lookup (uh u) h) as [[a| |]|]; try exact W.
+    destruct (lookup (arcs u) a) as [[f [|n]]|]; try exact W.
+    destruct (lookup (fdt u) f) as [[c|c|ob]|]; try exact W.
+    destruct (u_resolve u atts) as [[[fs os] u1]|] eqn:ER; try exact W.
+    destruct (u_resolve_frame _ _ _ _ _ ER) as (Ec & Ef & _ & _).
+    assert (W1 : k_wf (uk u1)) by (unfold uk; rewrite Ec, Ef; exact W).
+    destruct (k_send (uk u1) c _) as [k'|] eqn:ES; cbn [fst]; apply kwf_drop_owned.
+    + pose proof ES as ES2. apply k_send_some in ES2. destruct ES2 as (ch & _ & _ & Ek).
+      assert (Wk : k_wf k').
+      { eapply k_send_wf_held; eauto. cbn [m_rights uk held]. intros c' Hin. eapply refs_of_in; eauto. }
+      subst k'. exact Wk.
+    + exact W1.
+  - (* ORecv *)
+    destruct (lookup (uh u) h) as [[a|[f|]|]|]; try exact W.
+    destruct (lookup (fdt u) f) as [[c|c|ob]|]; try exact W.
+    destruct (q (get_chan (uk u) c)) as [|m rest] eqn:Eq.
+    + destruct (refs (uk u) (RS c) =? 0); exact W.
+    + match goal with |- context [u_install ?x ?r] =>
+        pose proof (kwf_install r x) as HI; destruct (u_install x r) as [u2 out] end.
+      cbn [fst] in *. apply HI. simp_u.
+      assert (ER : k_recv (uk u) c = KMsg m {| chans := set_nth (chans (uk u)) c {| q := rest; dead := dead (get_chan (uk u) c) |};
+                                               held := m_rights m ++ held (uk u) |}).
+      { unfold k_recv. rewrite Eq. reflexivity. }
+      apply k_recv_wf in ER; auto. eapply k_wf_held_le; [|exact ER].
+      intros c0. cbn [uk held]. rewrite !count_occ_app. lia.
+Qed.
+
+(* ------------------------------------------------------------------------------------------ *)
+(* the bookkeeping invariant, generalised by extra owners                                       *)
+(*   xs : descriptors owned by something else than a live arc / receiver handle (about to be    *)
+(*        closed, or held by the `channels` vector of a transmission: OwnFd)                    *)
+(*   ea : extra strong references to arcs (clones in the `channels` vector: OwnArc)             *)
+(* ------------------------------------------------------------------------------------------ *)
+Definition closes (tr : list call) : list fd :=
+  flat_map (fun c => match c with CClose f => [f] | _ => [] end) tr.
+
+Record G (xs : list fd) (ea : list aid) (u : ust) : Prop := {
+  g_fd_nodup : NoDup (map fst (fdt u));
+  g_fd_lt : Forall (fun e => fst e < nextfd u) (fdt u);
+  g_perm : Permutation (map fst (fdt u)) (xs ++ arc_fds (arcs u) ++ rx_fds (uh u));
+  g_nbc : forall f, ~ In (CBadClose f) (utrace u);
+  g_arc_nodup : NoDup (map fst (arcs u));
+  g_arc_lt : Forall (fun e => fst e < anext u) (arcs u);
+  g_arc_cnt : forall a f n, lookup (arcs u) a = Some (f, n) -> n = count_us a (uh u) + count_occ Nat.eq_dec ea a;
+  g_arc_ty : forall a f n, lookup (arcs u) a = Some (f, S n) -> exists c, lookup (fdt u) f = Some (RS c);
+  g_uh_nodup : NoDup (map fst (uh u));
+  g_uh_lt : Forall (fun e => fst e < unext u) (uh u);
+  g_us_arc : forall h a, lookup (uh u) h = Some (US a) -> exists f n, lookup (arcs u) a = Some (f, n);
+  g_ur_ty : forall h f, lookup (uh u) h = Some (UR (Some f)) -> exists c, lookup (fdt u) f = Some (RR c);
+  g_cl_lt : forall f, In f (closes (utrace u)) -> f < nextfd u /\ ~ In f (map fst (fdt u));
+  g_cl_nodup : NoDup (closes (utrace u)) }.
+
+(* permutation goals over nat lists, by counting *)
+Ltac perm_nat :=
+  apply (Permutation_count_occ Nat.eq_dec); intros ?x;
+  repeat match goal with
+  | H : Permutation ?l1 ?l2 |- _ =>
+      let H' := fresh "Hcnt" in
+      pose proof (proj1 (Permutation_count_occ Nat.eq_dec l1 l2) H x) as H'; clear H
+  end;
+  rewrite ?count_occ_app in *; cbn [count_occ app] in *; rewrite ?count_occ_app in *;
+  repeat match goal with
+  | |- context [Nat.eq_dec ?a ?b] => destruct (Nat.eq_dec a b)
+  | H : context [Nat.eq_dec ?a ?b] |- _ => destruct (Nat.eq_dec a b)
+  end; try nlia.
+
+Lemma G_perm : forall xs xs' ea ea' u, Permutation xs xs' ->
+  (forall a, count_occ Nat.eq_dec ea' a = count_occ Nat.eq_dec ea a) -> G xs ea u -> G xs' ea' u.
+Proof.
+  intros xs xs' ea ea' u Hp Hc [].
+  constructor; auto.
+  - etransitivity; [eassumption|]. apply Permutation_app_tail. exact Hp.
+  - intros a f n Hl. rewrite Hc. eauto.
+Qed.
+
+Lemma closes_app : forall t1 t2, closes (t1 ++ t2) = closes t1 ++ closes t2.
+Proof. intros. unfold closes. apply flat_map_app. Qed.
+
+(* a step that neither touches the tables nor closes anything *)
+Lemma G_frame : forall xs ea u u' c,
+  fdt u' = fdt u -> nextfd u' = nextfd u -> arcs u' = arcs u -> anext u' = anext u ->
+  uh u' = uh u -> unext u' = unext u -> utrace u' = utrace u ++ c ->
+  (forall f, ~ In (CBadClose f) c) -> closes c = [] ->
+  G xs ea u -> G xs ea u'.
+Proof.
+  intros xs ea u u' c E1 E2 E3 E4 E5 E6 E7 Hb Hc [].
+  constructor; rewrite ?E1, ?E2, ?E3, ?E4, ?E5, ?E6, ?E7, ?closes_app, ?Hc, ?app_nil_r; auto.
+  intros f Hin. apply in_app_or in Hin. destruct Hin as [Hin|Hin]; [eapply g_nbc0|eapply Hb]; eauto.
+Qed.
+
+(* facts derived from the invariant *)
+Lemma G_owned_nodup : forall xs ea u, G xs ea u -> NoDup (xs ++ arc_fds (arcs u) ++ rx_fds (uh u)).
+Proof. intros xs ea u H. eapply Permutation_NoDup; [apply (g_perm _ _ _ H)|apply (g_fd_nodup _ _ _ H)]. Qed.
+
+Lemma G_arc_owned : forall u a f n, lookup (arcs u) a = Some (f, S n) -> In f (arc_fds (arcs u)).
+Proof. intros u a f n H. eapply fm_in; eauto. cbn [arco]. now left. Qed.
+
+Lemma G_rx_owned : forall u h f, lookup (uh u) h = Some (UR (Some f)) -> In f (rx_fds (uh u)).
+Proof. intros u h f H. eapply fm_in; eauto. cbn [rxo]. now left. Qed.
+
+(* close of an owned descriptor *)
+Lemma G_close : forall xs ea u f, G (f :: xs) ea u -> G xs ea (sys_close u f).
+Proof.
+  intros xs ea u f H. pose proof (G_owned_nodup _ _ _ H) as Hnd. destruct H.
+  assert (Hin : In f (map fst (fdt u))).
+  { eapply Permutation_in; [apply Permutation_sym; eassumption|]. now left. }
+  destruct (in_fst_lookup _ _ Hin) as [r Hr].
+  cbn [app] in Hnd. inversion Hnd as [|? ? Hfresh _]; subst.
+  assert (Hlt : f < nextfd u).
+  { rewrite Forall_forall in g_fd_lt0. apply lookup_In in Hr. apply (g_fd_lt0 _ Hr). }
+  unfold sys_close. rewrite Hr. constructor; simp_u; auto.
+  - apply remove_fd_nodup; auto.
+  - rewrite Forall_forall in *. intros e He. apply g_fd_lt0. eapply remove_fd_incl; eauto.
+  - pose proof (remove_fd_perm _ _ Hin) as Hp. eapply Permutation_cons_inv.
+    etransitivity; [apply Permutation_sym, Hp|]. exact g_perm0.
+  - intros g Hg. apply in_app_or in Hg. destruct Hg as [Hg|[Hg|[]]]; [eapply g_nbc0; eauto|discriminate].
+  - intros a f' n Hl. destruct (g_arc_ty0 _ _ _ Hl) as [c Hc]. exists c.
+    rewrite lookup_remove_fd_other; auto. intros <-. apply Hfresh.
+    apply in_or_app. right. apply in_or_app. left. eapply G_arc_owned; eauto.
+  - intros h f' Hl. destruct (g_ur_ty0 _ _ Hl) as [c Hc]. exists c.
+    rewrite lookup_remove_fd_other; auto. intros <-. apply Hfresh.
+    apply in_or_app. right. apply in_or_app. right. eapply G_rx_owned; eauto.
+  - intros g Hg. rewrite closes_app in Hg. apply in_app_or in Hg. destruct Hg as [Hg|[<-|[]]].
+    + destruct (g_cl_lt0 _ Hg) as [Hl Hn]. split; auto. intros Hi. apply Hn. eapply remove_fd_fst_incl; eauto.
+    + split; auto. apply remove_fd_notin; auto.
+  - rewrite closes_app. cbn [closes flat_map app]. apply NoDup_snoc; auto.
+    intros Hc. destruct (g_cl_lt0 _ Hc) as [_ Hn]. contradiction.
+Qed.
+
+(* changing a positive strong count to another positive one *)
+Lemma arc_fds_update_pos : forall l a f n m, lookup l a = Some (f, S n) ->
+  Permutation (arc_fds (update l a (f, S m))) (arc_fds l).
+Proof.
+  intros l a f n m H. pose proof (fm_update_perm arco l a _ (f, S m) H) as Hp.
+  cbn [arco app] in Hp. eapply Permutation_cons_inv; eauto.
+Qed.
+
+Lemma G_arc_set : forall xs ea ea' u a f n m, lookup (arcs u) a = Some (f, S n) ->
+  S m + count_occ Nat.eq_dec ea a = S n + count_occ Nat.eq_dec ea' a ->
+  (forall a', a' <> a -> count_occ Nat.eq_dec ea' a' = count_occ Nat.eq_dec ea a') ->
+  G xs ea u -> G xs ea' (set_arcs u (update (arcs u) a (f, S m))).
+Proof.
+  intros xs ea ea' u a f n m Hl Hc Ho []. constructor; simp_u; auto.
+  - etransitivity; [eassumption|]. apply Permutation_app_head, Permutation_app_tail.
+    apply Permutation_sym. eapply arc_fds_update_pos; eauto.
+  - now rewrite map_fst_update.
+  - now apply Forall_update.
+  - intros a' f' n' Hl'. destruct (Nat.eq_dec a a') as [<-|Hne].
+    + rewrite lookup_update_eq, Hl in Hl'. injection Hl' as <- <-.
+      specialize (g_arc_cnt0 _ _ _ Hl). nlia.
+    + rewrite lookup_update_neq in Hl' by auto. rewrite Ho by auto. eauto.
+  - intros a' f' n' Hl'. destruct (Nat.eq_dec a a') as [<-|Hne].
+    + rewrite lookup_update_eq, Hl in Hl'. injection Hl' as <- <-. eauto.
+    + rewrite lookup_update_neq in Hl' by auto. eauto.
+  - intros h a' Hh. destruct (g_us_arc0 _ _ Hh) as (f' & n' & E).
+    destruct (Nat.eq_dec a a') as [<-|Hne].
+    + exists f, (S m). now rewrite lookup_update_eq, Hl.
+    + exists f', n'. now rewrite lookup_update_neq by auto.
+Qed.
+
+Lemma G_arc_inc : forall xs ea u a f n, lookup (arcs u) a = Some (f, S n) ->
+  G xs ea u -> G xs (a :: ea) (arc_inc u a).
+Proof.
+  intros xs ea u a f n Hl H. unfold arc_inc. rewrite Hl.
+  apply (G_arc_set xs ea (a :: ea) u a f n (S n)); auto.
+  - rewrite count_occ_cons_eq by auto. nlia.
+  - intros a' Hne. now rewrite count_occ_cons_neq by auto.
+Qed.
+
+Lemma G_arc_dec : forall xs ea u a, G xs (a :: ea) u -> G xs ea (arc_dec u a).
+Proof.
+  intros xs ea u a H. unfold arc_dec.
+  destruct (lookup (arcs u) a) as [[f [|[|n]]]|] eqn:Hl.
+  - exfalso. pose proof (g_arc_cnt _ _ _ H _ _ _ Hl) as E. rewrite count_occ_cons_eq in E by auto. nlia.
+  - (* last reference: the descriptor is closed *)
+    apply G_close. pose proof (g_arc_cnt _ _ _ H _ _ _ Hl) as E.
+    rewrite count_occ_cons_eq in E by auto. destruct H. constructor; simp_u; auto.
+    + pose proof (fm_update_perm arco _ _ _ (f, 0) Hl) as Hp. cbn [arco app] in Hp. fold arc_fds in Hp.
+      clear - g_perm0 Hp. perm_nat.
+    + now rewrite map_fst_update.
+    + now apply Forall_update.
+    + intros a' f' n' Hl'. destruct (Nat.eq_dec a a') as [<-|Hne].
+      * rewrite lookup_update_eq, Hl in Hl'. injection Hl' as <- <-. nlia.
+      * rewrite lookup_update_neq in Hl' by auto. specialize (g_arc_cnt0 _ _ _ Hl').
+        rewrite count_occ_cons_neq in g_arc_cnt0 by auto. exact g_arc_cnt0.
+    + intros a' f' n' Hl'. destruct (Nat.eq_dec a a') as [<-|Hne].
+      * rewrite lookup_update_eq, Hl in Hl'. discriminate.
+      * rewrite lookup_update_neq in Hl' by auto. eauto.
+    + intros h a' Hh. destruct (g_us_arc0 _ _ Hh) as (f' & n' & E').
+      destruct (Nat.eq_dec a a') as [<-|Hne].
+      * exists f, 0. now rewrite lookup_update_eq, Hl.
+      * exists f', n'. now rewrite lookup_update_neq by auto.
+  - apply (G_arc_set xs (a :: ea) ea u a f (S n) n); auto.
+    + rewrite count_occ_cons_eq by auto. nlia.
+    + intros a' Hne. now rewrite count_occ_cons_neq by auto.
+  - (* no such arc: nothing is counted for it *)
+    destruct H. constructor; auto.
+    intros a' f' n' Hl'. specialize (g_arc_cnt0 _ _ _ Hl').
+    rewrite count_occ_cons_neq in g_arc_cnt0 by congruence. exact g_arc_cnt0.
+Qed.
+
+(* a handle gives up what it owns (dropped, or a receiver consumed by serialisation) *)
+Lemma G_set_uh : forall xs ea u h o o', lookup (uh u) h = Some o -> o' = UGone \/ o' = UR None ->
+  G xs ea u -> G (rxo o ++ xs) (uso o ++ ea) (set_uh u (update (uh u) h o')).
+Proof.
+  intros xs ea u h o o' Hl Ho' [].
+  assert (Hr : rxo o' = []) by (destruct Ho' as [->| ->]; reflexivity).
+  assert (Hu : forall a, usb a o' = 0) by (intros a; destruct Ho' as [->| ->]; reflexivity).
+  constructor; simp_u; auto.
+  - pose proof (fm_update_perm rxo _ _ _ o' Hl) as Hp. rewrite Hr in Hp. cbn [app] in Hp. fold rx_fds in Hp.
+    clear - g_perm0 Hp. perm_nat.
+  - intros a f n Ha. specialize (g_arc_cnt0 _ _ _ Ha). rewrite count_occ_app, count_uso.
+    pose proof (count_us_update a _ _ _ o' Hl) as Hc. rewrite Hu in Hc. nlia.
+  - now rewrite map_fst_update.
+  - now apply Forall_update.
+  - intros h' a Hh. destruct (Nat.eq_dec h h') as [<-|Hne].
+    + rewrite lookup_update_eq, Hl in Hh. destruct Ho' as [->| ->]; discriminate.
+    + rewrite lookup_update_neq in Hh by auto. eauto.
+  - intros h' f Hh. destruct (Nat.eq_dec h h') as [<-|Hne].
+    + rewrite lookup_update_eq, Hl in Hh. destruct Ho' as [->| ->]; discriminate.
+    + rewrite lookup_update_neq in Hh by auto. eauto.
+Qed.
+
+Definition own_fds (os : list owned) : list fd := flat_map (fun o => match o with OwnFd f => [f] | _ => [] end) os.
+Definition own_arcs (os : list owned) : list aid := flat_map (fun o => match o with OwnArc a => [a] | _ => [] end) os.
+
+(* dropping the `channels` vector discharges the extra owners one by one *)
+Lemma G_drop_owned : forall os xs ea u,
+  G (own_fds os ++ xs) (own_arcs os ++ ea) u -> G xs ea (drop_owned u os).
+Proof.
+  induction os as [|[a|f] t IH]; intros xs ea u H; cbn [drop_owned own_fds own_arcs flat_map app] in *; auto.
+  - apply IH. apply G_arc_dec. exact H.
+  - apply IH. apply G_close. exact H.
+Qed.
+
+(* serialisation of the attachments creates them *)
+Lemma G_resolve : forall atts xs ea u fs os u', G xs ea u -> u_resolve u atts = Some (fs, os, u') ->
+  G (own_fds os ++ xs) (own_arcs os ++ ea) u'.
+Proof.
+  induction atts as [|[x|x] r IH]; intros xs ea u fs os u' H HR; cbn [u_resolve] in HR.
+  - injection HR as <- <- <-. exact H.
+  - destruct (lookup (uh u) x) as [[a| |]|]; try discriminate.
+    destruct (lookup (arcs u) a) as [[f [|n]]|] eqn:E2; try discriminate.
+    destruct (u_resolve (arc_inc u a) r) as [[[fs' os'] u'']|] eqn:E3; try discriminate.
+    injection HR as <- <- <-. cbn [own_fds own_arcs flat_map app].
+    eapply G_arc_inc in H; eauto. eapply IH in E3; eauto.
+    eapply G_perm; [apply Permutation_refl| |exact E3].
+    intros a'. fold (own_arcs os'). rewrite !count_occ_app. cbn [count_occ].
+    destruct (Nat.eq_dec a a'); rewrite ?count_occ_app; nlia.
+  - destruct (lookup (uh u) x) as [[a|[f|]|]|] eqn:E1; try discriminate.
+    destruct (u_resolve (set_uh u (update (uh u) x (UR None))) r) as [[[fs' os'] u'']|] eqn:E3; try discriminate.
+    injection HR as <- <- <-. cbn [own_fds own_arcs flat_map app].
+    eapply (G_set_uh xs ea u x _ (UR None)) in H; eauto. cbn [rxo uso app] in H.
+    eapply IH in E3; eauto.
+    eapply G_perm; [|intros; reflexivity|exact E3].
+    fold (own_fds os'). apply Permutation_sym, Permutation_middle.
+Qed.
+
+(* a new descriptor becomes a sender object (fresh arc, fresh handle) *)
+Lemma G_add_tx : forall xs u cs c tr, (forall f, ~ In (CBadClose f) tr) -> closes tr = [] -> G xs [] u ->
+  G xs [] {| uchans := cs; fdt := fdt u ++ [(nextfd u, RS c)]; nextfd := S (nextfd u);
+             arcs := arcs u ++ [(anext u, (nextfd u, 1))]; anext := S (anext u);
+             uh := uh u ++ [(unext u, US (anext u))]; unext := S (unext u); utrace := utrace u ++ tr |}.
+Proof.
+  intros xs u cs c tr Hb Hc H. destruct H. constructor; simp_u.
+  - apply NoDup_fst_snoc; auto.
+  - apply Forall_lt_snoc; auto.
+  - rewrite map_app. unfold arc_fds, rx_fds in *. rewrite !fm_app. unfold fm at 2 4.
+    cbn [map fst snd flat_map arco rxo app]. clear - g_perm0. perm_nat.
+  - intros f Hin. apply in_app_or in Hin. destruct Hin as [Hin|Hin]; [eapply g_nbc0|eapply Hb]; eauto.
+  - apply NoDup_fst_snoc; auto.
+  - apply Forall_lt_snoc; auto.
+  - intros a f n Hl. rewrite lookup_app in Hl. rewrite count_us_app, count_us_cons. cbn [usb count_us filter length count_occ].
+    destruct (lookup (arcs u) a) as [v|] eqn:E.
+    + injection Hl as ->. pose proof (lookup_lt _ _ _ _ g_arc_lt0 E) as Hlt.
+      destruct (Nat.eqb_spec (anext u) a); [nlia|]. specialize (g_arc_cnt0 _ _ _ E). cbn [count_occ] in g_arc_cnt0. nlia.
+    + cbn [lookup] in Hl. destruct (Nat.eqb_spec (anext u) a) as [<-|]; [|discriminate].
+      injection Hl as <- <-. rewrite count_us_zero; [reflexivity|].
+      intros h Hin. apply In_lookup in Hin; auto. destruct (g_us_arc0 _ _ Hin) as (f' & n' & E'). congruence.
+  - intros a f n Hl. rewrite lookup_app in Hl. rewrite lookup_app.
+    destruct (lookup (arcs u) a) as [v|] eqn:E.
+    + injection Hl as ->. destruct (g_arc_ty0 _ _ _ E) as [c' Hc']. exists c'. now rewrite Hc'.
+    + cbn [lookup] in Hl. destruct (Nat.eqb_spec (anext u) a) as [<-|]; [|discriminate].
+      injection Hl as <- <-. exists c. rewrite (lookup_fresh _ _ _ g_fd_lt0) by lia.
+      cbn [lookup]. now rewrite Nat.eqb_refl.
+  - apply NoDup_fst_snoc; auto.
+  - apply Forall_lt_snoc; auto.
+  - intros h a Hl. rewrite lookup_app in Hl. destruct (lookup (uh u) h) as [v|] eqn:E.
+    + injection Hl as ->. destruct (g_us_arc0 _ _ E) as (f' & n' & E'). exists f', n'. rewrite lookup_app. now rewrite E'.
+    + cbn [lookup] in Hl. destruct (Nat.eqb (unext u) h); [|discriminate]. injection Hl as <-.
+      exists (nextfd u), 1. rewrite lookup_app. rewrite (lookup_fresh _ _ _ g_arc_lt0) by lia.
+      cbn [lookup]. now rewrite Nat.eqb_refl.
+  - intros h f Hl. rewrite lookup_app in Hl. destruct (lookup (uh u) h) as [v|] eqn:E.
+    + injection Hl as ->. destruct (g_ur_ty0 _ _ E) as [c' Hc']. exists c'. rewrite lookup_app. now rewrite Hc'.
+    + cbn [lookup] in Hl. destruct (Nat.eqb (unext u) h); discriminate.
+  - rewrite closes_app, Hc, app_nil_r. intros f Hin. destruct (g_cl_lt0 _ Hin) as [Hlt Hn]. split; [lia|].
+    rewrite map_app. cbn [map fst]. intros Hi. apply in_app_or in Hi. destruct Hi as [Hi|[Hi|[]]]; [contradiction|lia].
+  - now rewrite closes_app, Hc, app_nil_r.
+Qed.
+
+(* a new descriptor becomes a receiver object *)
+Lemma G_add_rx : forall xs u cs c tr, (forall f, ~ In (CBadClose f) tr) -> closes tr = [] -> G xs [] u ->
+  G xs [] {| uchans := cs; fdt := fdt u ++ [(nextfd u, RR c)]; nextfd := S (nextfd u);
+             arcs := arcs u; anext := anext u;
+             uh := uh u ++ [(unext u, UR (Some (nextfd u)))]; unext := S (unext u); utrace := utrace u ++ tr |}.
+Proof.
+  intros xs u cs c tr Hb Hc H. destruct H. constructor; simp_u; auto.
+  - apply NoDup_fst_snoc; auto.
+  - apply Forall_lt_snoc; auto.
+  - rewrite map_app. unfold arc_fds, rx_fds in *. rewrite !fm_app. unfold fm at 3.
+    cbn [map fst snd flat_map arco rxo app]. clear - g_perm0. perm_nat.
+  - intros f Hin. apply in_app_or in Hin. destruct Hin as [Hin|Hin]; [eapply g_nbc0|eapply Hb]; eauto.
+  - intros a f n Hl. rewrite count_us_app, count_us_cons. cbn [usb count_us filter length].
+    specialize (g_arc_cnt0 _ _ _ Hl). nlia.
+  - intros a f n Hl. destruct (g_arc_ty0 _ _ _ Hl) as [c' Hc']. exists c'. rewrite lookup_app. now rewrite Hc'.
+  - apply NoDup_fst_snoc; auto.
+  - apply Forall_lt_snoc; auto.
+  - intros h a Hl. rewrite lookup_app in Hl. destruct (lookup (uh u) h) as [v|] eqn:E.
+    + injection Hl as ->. eauto.
+    + cbn [lookup] in Hl. destruct (Nat.eqb (unext u) h); discriminate.
+  - intros h f Hl. rewrite lookup_app in Hl. rewrite lookup_app. destruct (lookup (uh u) h) as [v|] eqn:E.
+    + injection Hl as ->. destruct (g_ur_ty0 _ _ E) as [c' Hc']. exists c'. now rewrite Hc'.
+    + cbn [lookup] in Hl. destruct (Nat.eqb (unext u) h); [|discriminate]. injection Hl as <-.
+      exists c. rewrite (lookup_fresh _ _ _ g_fd_lt0) by lia. cbn [lookup]. now rewrite Nat.eqb_refl.
+  - rewrite closes_app, Hc, app_nil_r. intros f Hin. destruct (g_cl_lt0 _ Hin) as [Hlt Hn]. split; [lia|].
+    rewrite map_app. cbn [map fst]. intros Hi. apply in_app_or in Hi. destruct Hi as [Hi|[Hi|[]]]; [contradiction|lia].
+  - now rewrite closes_app, Hc, app_nil_r.
+Qed.
+
+(* a clone of a sender handle takes over one extra strong reference *)
+Lemma G_add_us : forall xs ea u a f n, lookup (arcs u) a = Some (f, n) -> G xs (a :: ea) u ->
+  G xs ea {| uchans := uchans u; fdt := fdt u; nextfd := nextfd u; arcs := arcs u; anext := anext u;
+             uh := uh u ++ [(unext u, US a)]; unext := S (unext u); utrace := utrace u |}.
+Proof.
+  intros xs ea u a f n Hl H. destruct H. constructor; simp_u; auto.
+  - unfold rx_fds in *. rewrite fm_app. unfold fm at 2. cbn [flat_map snd rxo app]. now rewrite app_nil_r.
+  - intros a' f' n' Hl'. specialize (g_arc_cnt0 _ _ _ Hl'). rewrite count_us_app, count_us_cons.
+    cbn [usb count_us filter length count_occ] in *.
+    destruct (Nat.eq_dec a a') as [->|Hne].
+    + rewrite Nat.eqb_refl. nlia.
+    + destruct (Nat.eqb_spec a a'); [contradiction|]. nlia.
+  - apply NoDup_fst_snoc; auto.
+  - apply Forall_lt_snoc; auto.
+  - intros h a' Hh. rewrite lookup_app in Hh. destruct (lookup (uh u) h) as [v|] eqn:E.
+    + injection Hh as ->. eauto.
+    + cbn [lookup] in Hh. destruct (Nat.eqb (unext u) h); [|discriminate]. injection Hh as <-. eauto.
+  - intros h f' Hh. rewrite lookup_app in Hh. destruct (lookup (uh u) h) as [v|] eqn:E.
+    + injection Hh as ->. eauto.
+    + cbn [lookup] in Hh. destruct (Nat.eqb (unext u) h); discriminate.
+Qed.
+
+Lemma G_install : forall rs xs u, G xs [] u -> G xs [] (fst (u_install u rs)).
+Proof.
+  induction rs as [|[c|c|o] t IH]; intros xs u H; cbn [u_install]; auto.
+  - match goal with |- context [u_install ?x t] => specialize (IH xs x); destruct (u_install x t) as [u2 out] end.
+    cbn [fst] in *. apply IH. apply (G_add_tx xs u (uchans u) c [CInstall (nextfd u)]); auto.
+    intros f [E|[]]. discriminate.
+  - match goal with |- context [u_install ?x t] => specialize (IH xs x); destruct (u_install x t) as [u2 out] end.
+    cbn [fst] in *. apply IH. apply (G_add_rx xs u (uchans u) c [CInstall (nextfd u)]); auto.
+    intros f [E|[]]. discriminate.
+Qed.
+
+Lemma G_step : forall u o, G [] [] u -> G [] [] (fst (u_step u o)).
+Proof.
+  intros u o H. destruct o as [|h|h|h data atts|h]; cbn [u_step].
+  - (* ONew *)
+    unfold k_new. cbn [fst chans].
+    set (cs := chans (uk u) ++ [{| q := []; dead := false |}]). set (c := length (chans (uk u))).
+    assert (H1 := G_add_tx [] u cs c [] (fun f (x : In (CBadClose f) []) => x) eq_refl H).
+    assert (H2 := G_add_rx [] _ cs c [CSocketpair (nextfd u) (S (nextfd u))]
+                    (fun f (x : In (CBadClose f) [_]) => match x with or_introl e => ltac:(discriminate e) | or_intror e => e end)
+                    eq_refl H1).
+    simp_u. rewrite <- !app_assoc in H2. cbn [app] in H2. exact H2.
+  - (* OClone *)
+    destruct (lookup (uh u) h) as [[a| |]|]; try exact H.
+    destruct (lookup (arcs u) a) as [[f [|n]]|] eqn:E2; try exact H.
+    cbn [fst]. pose proof (G_arc_inc _ _ _ _ _ _ E2 H) as H1.
+    eapply (G_add_us [] [] (arc_inc u a) a f (S (S n))); auto.
+    unfold arc_inc. rewrite E2. simp_u. now rewrite lookup_update_eq, E2.
+  - (* ODrop *)
+    destruct (lookup (uh u) h) as [[a|[f|]|]|] eqn:E1; try exact H; cbn [fst].
+    + apply G_arc_dec. apply (G_set_uh [] [] u h _ UGone E1) in H; auto.
+    + apply G_close. apply (G_set_uh [] [] u h _ UGone E1) in H; auto.
+  - (* OSend *)
+    destruct (lookup (uh u) h) as [[a| |]|]; try exact H.
+    destruct (lookup (arcs u) a) as [[f [|n]]|]; try exact H.
+    destruct (lookup (fdt u) f) as [[c|c|ob]|]; try exact H.
+    destruct (u_resolve u atts) as [[[fs os] u1]|] eqn:ER; try exact H.
+    pose proof (G_resolve _ _ _ _ _ _ _ H ER) as H1.
+    destruct (k_send (uk u1) c _) as [k'|]; cbn [fst]; apply G_drop_owned;
+      (eapply G_frame; [..|exact H1]; simp_u; try reflexivity; [intros g [E|[]]; discriminate]).
+  - (* ORecv *)
+    destruct (lookup (uh u) h) as [[a|[f|]|]|]; try exact H.
+    destruct (lookup (fdt u) f) as [[c|c|ob]|]; try exact H.
+    destruct (q (get_chan (uk u) c)) as [|m rest].
+    + destruct (refs (uk u) (RS c) =? 0); cbn [fst];
+        (eapply G_frame; [..|exact H]; simp_u; try reflexivity; [intros g [E|[]]; discriminate]).
+    + match goal with |- context [u_install ?x ?r] =>
+        pose proof (G_install r [] x) as HI; destruct (u_install x r) as [u2 out] end.
+      cbn [fst] in *. apply HI.
+      eapply G_frame; [..|exact H]; simp_u; try reflexivity. intros g [E|[]]; discriminate.
+Qed.
+
+(* ------------------------------------------------------------------------------------------ *)
+(* the invariant of the unix back end                                                           *)
+(* ------------------------------------------------------------------------------------------ *)
+Record u_inv (u : ust) : Prop := {
+  (* (a) the descriptor table *)
+  ui_fd_nodup : NoDup (map fst (fdt u));
+  ui_fd_lt : Forall (fun e => fst e < nextfd u) (fdt u);
+  (* (b) open descriptors = descriptors owned by live library objects *)
+  ui_perm : Permutation (map fst (fdt u)) (owned_fds u);
+  (* (c) *)
+  ui_nbc : no_bad_close u;
+  (* (d) arcs *)
+  ui_arc_nodup : NoDup (map fst (arcs u));
+  ui_arc_lt : Forall (fun e => fst e < anext u) (arcs u);
+  ui_arc_cnt : forall a f n, In (a, (f, n)) (arcs u) -> n = count_us a (uh u);
+  ui_arc_ty : forall a f n, In (a, (f, n)) (arcs u) -> n > 0 -> exists c, lookup (fdt u) f = Some (RS c);
+  ui_arc_distinct : forall a1 f1 n1 a2 f2 n2, In (a1, (f1, n1)) (arcs u) -> In (a2, (f2, n2)) (arcs u) ->
+    n1 > 0 -> n2 > 0 -> a1 <> a2 -> f1 <> f2;
+  (* (e) handles *)
+  ui_uh_nodup : NoDup (map fst (uh u));
+  ui_uh_lt : Forall (fun e => fst e < unext u) (uh u);
+  ui_us_arc : forall h a, In (h, US a) (uh u) -> exists f n, In (a, (f, n)) (arcs u);
+  ui_ur_ty : forall h f, In (h, UR (Some f)) (uh u) -> exists c, lookup (fdt u) f = Some (RR c);
+  ui_ur_distinct : forall h1 f1 h2 f2, In (h1, UR (Some f1)) (uh u) -> In (h2, UR (Some f2)) (uh u) ->
+    h1 <> h2 -> f1 <> f2;
+  ui_ur_arc_distinct : forall h f a f' n, In (h, UR (Some f)) (uh u) -> In (a, (f', n)) (arcs u) -> n > 0 -> f <> f';
+  (* (f) the kernel *)
+  ui_kwf : k_wf (uk u);
+  (* the trace: closed descriptors are old and no longer open; each is closed once *)
+  ui_cl_lt : forall f, In f (closes (utrace u)) -> f < nextfd u /\ ~ In f (map fst (fdt u));
+  ui_cl_nodup : NoDup (closes (utrace u)) }.
+
+Lemma nodup_app_l {X} : forall (l1 l2 : list X), NoDup (l1 ++ l2) -> NoDup l1.
+Proof.
+  induction l1 as [|h t IH]; intros l2 H; [constructor|].
+  cbn [app] in H. inversion H as [|? ? Hh Ht]; subst. constructor; eauto.
+  intros Hin. apply Hh. apply in_or_app. now left.
+Qed.
+
+Lemma G_of_inv : forall u, u_inv u -> G [] [] u.
+Proof.
+  intros u []. constructor; auto.
+  - intros a f n Hl. apply lookup_In in Hl. cbn [count_occ]. rewrite Nat.add_0_r. eauto.
+  - intros a f n Hl. apply lookup_In in Hl. eapply ui_arc_ty0; eauto. lia.
+  - intros h a Hl. apply lookup_In in Hl. destruct (ui_us_arc0 _ _ Hl) as (f & n & Hin).
+    exists f, n. apply In_lookup; auto.
+  - intros h f Hl. apply lookup_In in Hl. eauto.
+Qed.
+
+Lemma inv_of_G : forall u, G [] [] u -> k_wf (uk u) -> u_inv u.
+Proof.
+  intros u H W. pose proof (G_owned_nodup _ _ _ H) as Hnd. cbn [app] in Hnd.
+  pose proof (nodup_app_l _ _ Hnd) as Hna. destruct (nodup_app_inv _ _ Hnd) as [Hnr Hdis].
+  destruct H. constructor; auto.
+  - intros a f n Hin. apply In_lookup in Hin; auto. specialize (g_arc_cnt0 _ _ _ Hin).
+    cbn [count_occ] in g_arc_cnt0. lia.
+  - intros a f n Hin Hn. apply In_lookup in Hin; auto. destruct n as [|n]; [lia|]. eauto.
+  - intros a1 f1 n1 a2 f2 n2 I1 I2 P1 P2 Hne ->. apply In_lookup in I1; auto. apply In_lookup in I2; auto.
+    apply (fm_distinct arco (arcs u) a1 a2 _ _ f2 Hna I1 I2 Hne).
+    + destruct n1; [lia|]. now left.
+    + destruct n2; [lia|]. now left.
+  - intros h a Hin. apply In_lookup in Hin; auto. destruct (g_us_arc0 _ _ Hin) as (f & n & E).
+    exists f, n. eapply lookup_In; eauto.
+  - intros h f Hin. apply In_lookup in Hin; auto. eauto.
+  - intros h1 f1 h2 f2 I1 I2 Hne ->. apply In_lookup in I1; auto. apply In_lookup in I2; auto.
+    apply (fm_distinct rxo (uh u) h1 h2 _ _ f2 Hnr I1 I2 Hne); now left.
+  - intros h f a f' n I1 I2 Hn ->. apply In_lookup in I1; auto. apply In_lookup in I2; auto.
+    destruct n as [|n]; [lia|]. apply (Hdis f').
+    + eapply G_arc_owned; eauto.
+    + eapply G_rx_owned; eauto.
+Qed.
+
+Theorem u_inv_init : u_inv u_init.
+Proof.
+  apply inv_of_G.
+  - constructor; cbn; try constructor; try (intros; discriminate); try (intros ? []); try (intros; contradiction); auto.
+  - exact k_init_wf.
+Qed.
+
+Theorem u_inv_step : forall u o, u_inv u -> u_inv (fst (u_step u o)).
+Proof.
+  intros u o H. apply inv_of_G.
+  - apply G_step, G_of_inv, H.
+  - apply kwf_step, (ui_kwf _ H).
+Qed.
+
+Lemma u_inv_run_from : forall ops u, u_inv u -> u_inv (fst (u_run u ops)).
+Proof.
+  induction ops as [|o r IH]; intros u H; cbn [u_run fst]; auto.
+  pose proof (u_inv_step u o H) as H1. destruct (u_step u o) as [u' out]. cbn [fst] in H1.
+  specialize (IH u' H1). destruct (u_run u' r) as [u'' outs]. exact IH.
+Qed.
+
+Theorem u_inv_run : forall ops, u_inv (fst (u_run u_init ops)).
+Proof. intros ops. apply u_inv_run_from, u_inv_init. Qed.
+
+(* ------------------------------------------------------------------------------------------ *)
+(* C11                                                                                          *)
+(* ------------------------------------------------------------------------------------------ *)
+Theorem C11_no_leak : forall ops, let u := fst (u_run u_init ops) in
+  Permutation (map fst (fdt u)) (owned_fds u) /\ NoDup (map fst (fdt u)).
+Proof. intros ops u. pose proof (u_inv_run ops) as H. fold u in H. split; [apply (ui_perm _ H)|apply (ui_fd_nodup _ H)]. Qed.
+
+Theorem C11_no_bad_close : forall ops, no_bad_close (fst (u_run u_init ops)).
+Proof. intros ops. apply (ui_nbc _ (u_inv_run ops)). Qed.
+
+Theorem C11_close_once : forall ops,
+  NoDup (flat_map (fun c => match c with CClose f => [f] | _ => [] end) (utrace (fst (u_run u_init ops)))).
+Proof. intros ops. exact (ui_cl_nodup _ (u_inv_run ops)). Qed.
+
+Lemma fm_rxo_nil : forall l, (forall h o, In (h, o) l -> o = UGone \/ o = UR None) -> fm rxo l = [].
+Proof.
+  induction l as [|[h o] t IH]; intros H; auto.
+  unfold fm in *. cbn [flat_map snd]. rewrite IH by (intros h' o' Hin; apply (H h'); now right).
+  destruct (H h o (or_introl eq_refl)) as [->| ->]; reflexivity.
+Qed.
+
+Lemma fm_arco_nil : forall l, (forall a f n, In (a, (f, n)) l -> n = 0) -> fm arco l = [].
+Proof.
+  induction l as [|[a [f n]] t IH]; intros H; auto.
+  unfold fm in *. cbn [flat_map snd]. rewrite IH by (intros a' f' n' Hin; apply (H a' f'); now right).
+  rewrite (H a f n (or_introl eq_refl)). reflexivity.
+Qed.
+
+Theorem C11_quiescent : forall ops, let u := fst (u_run u_init ops) in
+  (forall h o, In (h, o) (uh u) -> o = UGone \/ o = UR None) -> fdt u = [].
+Proof.
+  intros ops u Hq. pose proof (u_inv_run ops) as H. fold u in H.
+  pose proof (ui_perm _ H) as Hp. rewrite owned_fds_eq in Hp.
+  unfold arc_fds, rx_fds in Hp. rewrite fm_rxo_nil in Hp by exact Hq.
+  rewrite fm_arco_nil in Hp.
+  - cbn [app] in Hp. apply Permutation_sym, Permutation_nil in Hp.
+    apply map_eq_nil in Hp. exact Hp.
+  - intros a f n Hin. rewrite (ui_arc_cnt _ H _ _ _ Hin). apply count_us_zero.
+    intros h Hh. destruct (Hq _ _ Hh); discriminate.
+Qed.
+
+Print Assumptions u_inv_init.
+Print Assumptions u_inv_step.
+Print Assumptions u_inv_run.
+Print Assumptions C11_no_leak.
+Print Assumptions C11_no_bad_close.
+Print Assumptions C11_close_once.
+Print Assumptions C11_quiescent.
